@@ -30,6 +30,10 @@ def evalWm (st : DState) (name : String) (t : List String) (impl : String) : Eva
     let w := WM.ofValues V
     let st1 := (st.note "wm.from").note s!"wm.type.{ty}"
     { st := { st1 with wms := st1.wms.insert name ⟨w, V⟩ }, model := s!"ok {rWords (wmC.ser w)}", spec := some "ok *" }
+  | "ref" :: vals =>
+    (match st.wms[name]? with
+     | some o => { st := { st with wms := st.wms.insert name ⟨o.m, vals.map num⟩ }, model := "ok", spec := some "ok" }
+     | none => { st := st, model := "panic:no-object" })
   | "core" :: ty :: rest =>
     let (pre, vals) := splitColon rest
     let V := vals.map fun x => truncTo ty (num x)
@@ -59,7 +63,7 @@ def evalWm (st : DState) (name : String) (t : List String) (impl : String) : Eva
        -- defined when the index is inside the value's range; below `first` the code underflows (F4) — not specified
        let spec := if i ≥ fst then some (rOptNat ((occIndices V x)[i - fst]?)) else none
        res (render rOptNat (c.mapUpWith m i v)) spec (if i ≥ fst then "wmc.mapup" else "wmc.mapup.below")
-     | ["ser"] => res (rWords (wmCoreC.ser c)) none "wmc.ser"
+     | ["doc"] | ["ser"] => res (rWords (wmCoreC.ser c)) none "wmc.ser"
      | _ => res "driver:unknown-core-op" none "wmc.unknown")
   | _ =>
     match st.wms[name]? with
@@ -103,7 +107,7 @@ def evalWm (st : DState) (name : String) (t : List String) (impl : String) : Eva
           | .ok r => (match w.valueIterNext m v r with | .ok (o, _) => rOptPair o | .fault e => renderFault e)
           | .fault e => renderFault e
         res model (some spec) "wm.succ"
-      | ["ser"] => res (rWords (wmC.ser w)) none "wm.ser"
+      | ["doc"] | ["ser"] => res (rWords (wmC.ser w)) none "wm.ser"
       | ["items"] =>
         let model := (List.range w.len).foldl (fun (acc : List String) i => acc ++ [render rNat (w.get m i)]) []
         res (" ".intercalate model) (some (rNats V)) "wm.items"
